@@ -162,6 +162,8 @@ pub struct Host {
     pub keyboards: HashMap<u64, (KeyboardMatrix, MemoryImage)>,
     pub lcds: HashMap<u64, LcdController>,
     pub mems: HashMap<u64, MemoryImage>,
+    /// memories that live inside a runtime configured through the device-model loaders (C11 loader configurations)
+    pub memrts: HashMap<u64, Box<CoreRuntime>>,
     pub regs: HashMap<u64, LlamaState>,
     pub cores: HashMap<u64, CoreSlot>,
 }
@@ -174,6 +176,7 @@ impl Host {
             keyboards: HashMap::new(),
             lcds: HashMap::new(),
             mems: HashMap::new(),
+            memrts: HashMap::new(),
             regs: HashMap::new(),
             cores: HashMap::new(),
         }
